@@ -586,7 +586,8 @@ def run_obligation(ob, seed, tier):
             out["num_trials"] += 1
             if err is not None:
                 out["notes"].append(f"numeric cross-run error: {err}"[:400])
-                if opts.get("numeric_required", False):
+                # an obligation declared numeric=True is decided by this run: an error in it is never a silent pass
+                if opts.get("numeric_required", opts.get("numeric") is True):
                     inconclusive.append(f"numeric cross-run error: {err}"[:400])
             if fails:
                 reproduced.append({"label": fails[0][0], "how": "numeric-cross-run", "env": used,
